@@ -45,13 +45,23 @@ Definition from_schema (s : js) : res loc :=
        | Err e => Err e
        end.
 
-(* set_schema: if wb.lrecl: self.lrecl = wb.lrecl  else: self.lrecl = from_schema().end
-   (None and 0 are both falsy) *)
-Definition set_schema (lrecl : option nat) (s : js) : res nat :=
+(* COBOL_EBCDIC_Sheet.set_schema:
+     if wb.lrecl: self.lrecl = wb.lrecl                               (None and 0 are both false)
+     else: try: self.lrecl = LocationMaker(...).from_schema().end
+           except <catches>: self.lrecl = <caught_lrecl>              (None is modelled as 0: every reader only tests it)
+   [catches] and [caught_lrecl] are read from the source (Gen/LayoutParams.v: since fix 64e9f81 ValueError and None;
+   before it there was no try, catches = []).  [set_schema_with] takes them as arguments so that a theorem can also
+   speak about the source before the fix. *)
+Definition set_schema_with (catches : list exn) (caught_lrecl : nat) (lrecl : option nat) (s : js) : res nat :=
   match lrecl with
   | Some (S n) => Ok (S n)
-  | _ => match from_schema s with Ok l => Ok (lend l) | Err e => Err e end
+  | _ => match from_schema s with
+         | Ok l => Ok (lend l)
+         | Err e => if caught catches e then Ok caught_lrecl else Err e
+         end
   end.
+Definition set_schema (lrecl : option nat) (s : js) : res nat :=
+  set_schema_with set_schema_catches set_schema_caught_lrecl lrecl s.
 
 (* what the consumer of rows() is handed: the buffer (row.instance) and the navigator built on it *)
 Record row := mkrow { row_buf : list A; row_nav : nav }.
@@ -134,7 +144,9 @@ Definition rows_VB (dcount : list N -> nat) (kind : N) (lrecl : option nat) (sch
   end.
 
 (* the same through RECFM_F / RECFM_FB: fixed-length records, each cut at the lrecl the sheet holds (the workbook's, else the one
-   computed from the layout); a variable-length record is stored padded to that length and is laid out by its own counters *)
+   computed from the layout); a variable-length record is stored padded to that length and is laid out by its own counters.
+   With no lrecl at all (none given, none computable: an OCCURS DEPENDING ON layout) RECFM_F.record_iter raises TypeError
+   when the first row is asked for (Model/Recfm.v F_record_iter, lrecl 0). *)
 Definition rows_F (dcount : list N -> nat) (kind : N) (lrecl : option nat) (schema : js) (file : list N)
   : res (list (row N) * fin) :=
   match set_schema dcount lrecl schema with
